@@ -9,6 +9,7 @@ sys.path.insert(0, os.path.join(os.path.dirname(os.path.abspath(__file__)), ".."
 import synclib  # noqa: E402
 
 T = synclib.TICK
+BIG = [False]      # thorough tier: 3-actor programs under the model checker more often
 
 
 def gen_actor(rng, nm, rec, risky, own_first):
@@ -87,7 +88,7 @@ def gen_normal(rng, pid):
 def gen_mc(rng, pid):
     """small programs without sleeps: every interleaving is explored by simgrid-mc (reduction none)"""
     rec = rng.chance(1, 2)
-    na = 2 if rng.chance(3, 4) else 3
+    na = 3 if rng.chance(1, 3 if BIG[0] else 10) else 2
     p = {"id": pid, "mutexes": [(0, rec)], "actors": []}
     for a in range(na):
         k = rng.below(4) if na == 2 else rng.below(2)
@@ -112,6 +113,7 @@ def nontrivial(it):
 
 
 def run(ctx):
+    BIG[0] = ctx.tier == "thorough"
     ctx.cov["rule"] = ("programs of 2-5 actors x 3-12 ops on 1-3 mutexes (recursive or not) drawn from splitmix64(VERIF_SEED): "
                        "lock/try_lock/tol(try then lock)/unlock/get_owner/sleep + kernel-level lock_async/wait_for; classes: "
                        "random mostly-valid, risky (unlock by non-owner, relock), recursive re-lock by a queued waiter, ordered "
